@@ -13,10 +13,15 @@ CLAIMED = {
     "C20": dict(
         text=("Proved for every history and every store contents (induction over the op list): the store model refines the abstract map "
               "name->last value set (Get/Walk observations equal, Walk lists exactly the live entries once), Set on special/positional "
-              "names is the identity on the whole environment, their values depend on Args/Opts only. The model is tied to interp.go by "
-              "exhaustive histories up to length 3 plus random ones up to length 40 and by all 2^14 Option values."),
+              "names is the identity on the whole environment, their values depend on Args/Opts only. Proved for every word, mode, environment "
+              "and recursion budget: the model of Expand returns (with the fields or with an error) an environment with the same Args and Opts; "
+              "Eval changes the store only at the names under = op= ++ -- and never Args/Opts. The model is tied to interp.go by exhaustive "
+              "histories up to length 3 plus random ones up to length 40, by histories interleaved with Expand and Eval calls (store, Args and "
+              "Opts compared after each call; a judge on the implementation's own observations: an unset-error leaves the name unassigned, "
+              "only names under an assigning construct change) and by all 2^14 Option values. NOT proved: that Expand changes variables only "
+              "through := = and arithmetic (decided by that judge and the correspondence)."),
         note=BASE_NOTE + "Modelled, not verified: Go map, os.Environ (cleared by the harness), os.Getpid (oracle value).",
-        technique="Coq refinement proof (store model -> abstract map) + differential correspondence model vs interp.ExecEnv",
+        technique="Coq refinement proof (store model -> abstract map) + frame theorems for Expand/Eval + differential correspondence on histories with Expand and Eval calls",
         design="5 C20"),
     "C12": dict(
         text=("Proved for every pattern item list and every subject (induction on the items; key lemmas: monotonicity of the extreme "
